@@ -169,6 +169,7 @@ def _mk():
     T = "Map.prototype.size"
     add(T, "Map.prototype", "size", "ac", "custom", "return new Map().size", "n:0", via=f"{G}.Map", vkind="new", over={
         "absent": [U(f"{T} ret u")], "getter": [W(f"s:GET s:{T}"), U(f"{T} ret o:Function")],
+        "repl": [U(f"{T} ret o:Function")],      # reachable only by delete-then-assign (the built-in accessor has no setter)
         "ns-repl": [W(f"s:SAB s:{G}.Map"), U(f"{T} ret u")],
         "ns-getter": [W(f"s:GET s:{G}.Map"), W(f"s:SABG s:{G}.Map"), U(f"{T} ret u")]})
     add("Set.prototype.add", "Set.prototype", "add", "wc", "method", "return new Set().add(1)", "o:Object", via=f"{G}.Set", vkind="new")
